@@ -17,7 +17,7 @@ LEVEL = "exploration"
 RULE = ("histories of 6-16 calls on shared objects of one aggregate (2-3 sites, overdamped baths) drawn from: get_RelaxationTensor for 9 (theory, option) "
         "combinations, get_ReducedDensityMatrixPropagator, propagate on shared propagators with 3 shared initial states and 2 expansion orders, "
         "EvolutionSuperOperator.calculate / calculate_next, StateVectorPropagator.propagate, PopulationPropagator.propagate, "
-        "KTHierarchyPropagator.propagate (free_hierarchy on/off) on a shared hierarchy, AbsSpectrumCalculator.calculate; every history contains at least "
+        "KTHierarchyPropagator.propagate (free_hierarchy on/off) on a shared hierarchy, AbsSpectrumCalculator.calculate; propagations are also called inside eigenbasis_of(H) (time-independent and time-dependent Redfield); every history contains at least "
         "two repetitions of an earlier call. distinct = the sequence of call kinds; non-trivial iff at least one repeated call was separated from its first "
         "occurrence by a different call on the same shared objects.")
 ASSUMPTIONS = ["caches the library adds lazily (correlation-function integrals, splines, has_system_bath_coupling flags) and the working memory of a hierarchy "
